@@ -20,6 +20,22 @@ def quiet_logging(level: int = logging.CRITICAL + 10) -> None:
     lg.setLevel(level)
     lg.propagate = False
     logging.getLogger("asyncio").setLevel(logging.CRITICAL + 10)
+    import gallia.services.uds.server as _srv
+
+    if not isinstance(_srv.traceback, _QuietTraceback):
+        _srv.traceback = _QuietTraceback()  # type: ignore[assignment]
+
+
+class _QuietTraceback:
+    """gallia's server loop prints tracebacks of client errors to stderr; not an observable here."""
+
+    def print_exc(self, *a: Any, **kw: Any) -> None:
+        pass
+
+    def __getattr__(self, name: str) -> Any:
+        import traceback as _tb
+
+        return getattr(_tb, name)
 
 
 class Recorder:
@@ -48,8 +64,8 @@ class Recorder:
         self.named[task] = label
         self._labels[task] = label
 
-    def rec(self, kind: str, **detail: Any) -> list[Any]:
-        ev = [len(self.events), round(self.loop.time(), 9), self.actor(), kind, detail]
+    def rec(self, _kind: str, /, **detail: Any) -> list[Any]:
+        ev = [len(self.events), round(self.loop.time(), 9), self.actor(), _kind, detail]
         self.events.append(ev)
         return ev
 
